@@ -396,6 +396,11 @@ def producer(b, bb):
     return 'Err-return'
 
 
+# R18.8's instances are the functions that render an enum setting: inlining such a function into its caller removes the instance, not
+# the defect (seeded change C18-visibility-path-not-in-cache), so the rule is decided on the program as written only
+NO_INLINE_VIEW = {'R18.8'}
+
+
 def guard_info(facts, b):
     """locals with a Drop impl whose body removes a file: [(local, creation block, path-operand ok?, disarm blocks)]"""
     out = []
